@@ -62,13 +62,16 @@ pub open spec fn res_of(s: Seq<u8>) -> Seq<u8> {
     } else { s }
 }
 
-pub open spec fn excepted(fs: Seq<&NetworkFilter>, opt: String) -> bool {
-    exists|k: int| 0 <= k < fs.len() && (#[trigger] fs[k]).mask.has(NetworkFilterMask::IS_EXCEPTION) && fs[k].modifier_option == Some(opt)
+// "not cancelled by a matching redirect exception for the same resource": an exception names a resource (its option text without
+// the priority suffix) and cancels every redirection to that resource, whatever its priority
+pub open spec fn excepted(fs: Seq<&NetworkFilter>, res: Seq<u8>) -> bool {
+    exists|k: int| 0 <= k < fs.len() && (#[trigger] fs[k]).mask.has(NetworkFilterMask::IS_EXCEPTION) && fs[k].modifier_option is Some
+        && res_of(sb(fs[k].modifier_option->Some_0)) =~= res
 }
 
 pub open spec fn candidate(fs: Seq<&NetworkFilter>, i: int) -> bool {
     0 <= i < fs.len() && !fs[i].mask.has(NetworkFilterMask::IS_EXCEPTION) && fs[i].modifier_option is Some
-        && !excepted(fs, fs[i].modifier_option->Some_0)
+        && !excepted(fs, res_of(sb(fs[i].modifier_option->Some_0)))
 }
 
 pub proof fn lemma_last_colon_unique(s: Seq<u8>, i: int)
@@ -85,6 +88,12 @@ pub proof fn lemma_no_colon(s: Seq<u8>)
 {
     if exists|k: int| last_colon(s, k) { let k = choose|k: int| last_colon(s, k); assert(s[k] != 58u8); }
 }
+
+// R6: <[&str]>::contains(&&str) compares the texts
+#[verifier::external_body]
+fn vf_contains_text(v: &Vec<&str>, x: &str) -> (r: bool)
+    ensures r == exists|i: int| 0 <= i < v@.len() && (#[trigger] v@[i]).spec_bytes() =~= x.spec_bytes()
+{ v.contains(&x) }
 
 pub open spec fn opt_of(fs: Seq<&NetworkFilter>, i: int) -> Seq<u8> { sb(fs[i].modifier_option->Some_0) }
 
@@ -107,12 +116,23 @@ fn vf_redirect_block<'a>(redirect_filters: &Vec<&'a NetworkFilter>) -> (r: Optio
 //@ SAFETY C13.select.safety
 //@ FROM
         let redirect_resource = {
-            let mut exceptions = vec![];
 //@ ENDFROM
 //@ TO
             resource_and_priority.map(|(r, _)| r)
         };
 //@ ENDTO
+//@ SUBST R8
+    fn parse_redirect(redirect: &str) -> (&str, i32) {
+//@ WITH
+    fn parse_redirect(redirect: &str) -> (r: (&str, i32))
+        ensures r.0.spec_bytes() =~= res_of(redirect.spec_bytes()) && r.1 as int == prio_of(redirect.spec_bytes()), // OBL C13.select.parse_priority
+    {
+        proof {
+            let ob = redirect.spec_bytes();
+            assert forall|i: int| last_colon(ob, i) implies (exists|k: int| last_colon(ob, k)) && (choose|k: int| last_colon(ob, k)) == i by { lemma_last_colon_unique(ob, i); }
+            if no_colon(ob) { lemma_no_colon(ob); }
+        }
+//@ ENDSUBST
 //@ SUBST R8#1
     for redirect_filter in
 //@ WITH
@@ -126,20 +146,38 @@ fn vf_redirect_block<'a>(redirect_filters: &Vec<&'a NetworkFilter>) -> (r: Optio
 //@ SUBST R8
     let mut exceptions = vec![];
 //@ WITH
-    let mut exceptions: Vec<&String> = vec![];
+    let mut exceptions: Vec<&str> = vec![];
 //@ ENDSUBST
 //@ SUBST R8
     let mut resource_and_priority = None;
 //@ WITH
     let mut resource_and_priority: Option<(&str, i32)> = None;
 //@ ENDSUBST
+//@ SUBST R8*
+    parse_redirect(redirect)
+//@ WITH
+    parse_redirect(redirect.as_str())
+//@ ENDSUBST
+//@ BEFORE
+    let priority_str =
+//@ AT
+                    proof { assert(last_colon(redirect.spec_bytes(), idx as int)); }
+//@ ENDBEFORE
+//@ BEFORE
+    if let Ok(priority) =
+//@ AT
+                    proof {
+                        assert(priority_str.spec_bytes() =~= redirect.spec_bytes().subrange(idx as int + 1, redirect.spec_bytes().len() as int));
+                        assert(resource.spec_bytes() =~= redirect.spec_bytes().subrange(0, idx as int));
+                    }
+//@ ENDBEFORE
 //@ LOOP 1
                 invariant
                     it.seq().len() == redirect_filters@.len(),
                     forall|i: int| 0 <= i < redirect_filters@.len() ==> *#[trigger] it.seq()[i] == redirect_filters@[i],
-                    forall|x: int| 0 <= x < exceptions@.len() ==> excepted(redirect_filters@, *#[trigger] exceptions@[x]),
+                    forall|x: int| 0 <= x < exceptions@.len() ==> excepted(redirect_filters@, (#[trigger] exceptions@[x]).spec_bytes()),
                     forall|k: int| 0 <= k < it.index() && (#[trigger] redirect_filters@[k]).mask.has(NetworkFilterMask::IS_EXCEPTION) && redirect_filters@[k].modifier_option is Some
-                        ==> exists|x: int| 0 <= x < exceptions@.len() && *#[trigger] exceptions@[x] == redirect_filters@[k].modifier_option->Some_0,
+                        ==> exists|x: int| 0 <= x < exceptions@.len() && (#[trigger] exceptions@[x]).spec_bytes() =~= res_of(sb(redirect_filters@[k].modifier_option->Some_0)),
 //@ ENDLOOP
 //@ LOOPSTART 1
                 let ghost k0 = it.index() as int;
@@ -148,18 +186,19 @@ fn vf_redirect_block<'a>(redirect_filters: &Vec<&'a NetworkFilter>) -> (r: Optio
 //@ ENDLOOPSTART
 //@ LOOPEND 1
                 proof {
-                    assert forall|x: int| 0 <= x < exceptions@.len() implies excepted(redirect_filters@, *#[trigger] exceptions@[x]) by {
+                    assert forall|x: int| 0 <= x < exceptions@.len() implies excepted(redirect_filters@, (#[trigger] exceptions@[x]).spec_bytes()) by {
                         if x < ex0.len() { assert(exceptions@[x] == ex0[x]); } else {
-                            assert(redirect_filters@[k0].mask.has(NetworkFilterMask::IS_EXCEPTION) && redirect_filters@[k0].modifier_option == Some(*exceptions@[x]));
+                            assert(redirect_filters@[k0].mask.has(NetworkFilterMask::IS_EXCEPTION) && redirect_filters@[k0].modifier_option is Some);
+                            assert(res_of(sb(redirect_filters@[k0].modifier_option->Some_0)) =~= exceptions@[x].spec_bytes());
                         }
                     }
                     assert forall|k: int| 0 <= k < k0 + 1 && (#[trigger] redirect_filters@[k]).mask.has(NetworkFilterMask::IS_EXCEPTION) && redirect_filters@[k].modifier_option is Some
-                        implies exists|x: int| 0 <= x < exceptions@.len() && *#[trigger] exceptions@[x] == redirect_filters@[k].modifier_option->Some_0 by {
+                        implies exists|x: int| 0 <= x < exceptions@.len() && (#[trigger] exceptions@[x]).spec_bytes() =~= res_of(sb(redirect_filters@[k].modifier_option->Some_0)) by {
                         if k < k0 {
-                            let x = choose|x: int| 0 <= x < ex0.len() && *#[trigger] ex0[x] == redirect_filters@[k].modifier_option->Some_0;
-                            assert(*exceptions@[x] == redirect_filters@[k].modifier_option->Some_0);
+                            let x = choose|x: int| 0 <= x < ex0.len() && (#[trigger] ex0[x]).spec_bytes() =~= res_of(sb(redirect_filters@[k].modifier_option->Some_0));
+                            assert(exceptions@[x] == ex0[x]);
                         } else {
-                            assert(*exceptions@[exceptions@.len() - 1] == redirect_filters@[k].modifier_option->Some_0);
+                            assert(exceptions@[exceptions@.len() - 1].spec_bytes() =~= res_of(sb(redirect_filters@[k].modifier_option->Some_0)));
                         }
                     }
                 }
@@ -168,7 +207,7 @@ fn vf_redirect_block<'a>(redirect_filters: &Vec<&'a NetworkFilter>) -> (r: Optio
                 invariant
                     it.seq().len() == redirect_filters@.len(),
                     forall|i: int| 0 <= i < redirect_filters@.len() ==> *#[trigger] it.seq()[i] == redirect_filters@[i],
-                    forall|o: String| (exists|x: int| 0 <= x < exceptions@.len() && *#[trigger] exceptions@[x] == o) <==> excepted(redirect_filters@, o),
+                    forall|res: Seq<u8>| (exists|x: int| 0 <= x < exceptions@.len() && (#[trigger] exceptions@[x]).spec_bytes() =~= res) <==> excepted(redirect_filters@, res),
                     best_so_far(redirect_filters@, it.index() as int, resource_and_priority),
 //@ ENDLOOP
 //@ LOOPSTART 2
@@ -177,29 +216,12 @@ fn vf_redirect_block<'a>(redirect_filters: &Vec<&'a NetworkFilter>) -> (r: Optio
                 proof { assert(*redirect_filter == redirect_filters@[k0]); }
 //@ ENDLOOPSTART
 //@ BEFORE
-    let priority_str =
-//@ AT
-                                    proof { assert(last_colon(sb(*redirect), idx as int)); }
-//@ ENDBEFORE
-//@ BEFORE
-    if let Ok(priority) =
-//@ AT
-                                    proof {
-                                        assert(priority_str.spec_bytes() =~= sb(*redirect).subrange(idx as int + 1, sb(*redirect).len() as int));
-                                        assert(resource.spec_bytes() =~= sb(*redirect).subrange(0, idx as int));
-                                    }
-//@ ENDBEFORE
-//@ BEFORE
     if let Some((_, p1)) = resource_and_priority
 //@ AT
                             proof {
                                 let ob = opt_of(redirect_filters@, k0);
                                 assert(ob == sb(*redirect));
-                                assert forall|i: int| last_colon(ob, i) implies (exists|k: int| last_colon(ob, k)) && (choose|k: int| last_colon(ob, k)) == i by {
-                                    lemma_last_colon_unique(ob, i);
-                                }
-                                if no_colon(ob) { lemma_no_colon(ob); }
-                                assert(resource.spec_bytes() =~= res_of(ob) && priority as int == prio_of(ob)); // OBL C13.select.parse_priority
+                                assert(resource.spec_bytes() =~= res_of(ob) && priority as int == prio_of(ob));
                                 assert(candidate(redirect_filters@, k0));
                             }
 //@ ENDBEFORE
@@ -213,19 +235,14 @@ fn vf_redirect_block<'a>(redirect_filters: &Vec<&'a NetworkFilter>) -> (r: Optio
                 }
 //@ ENDLOOPEND
 //@ SUBST R6
+    exceptions.contains(&resource)
+//@ WITH
+    vf_contains_text(&exceptions, resource)
+//@ ENDSUBST
+//@ SUBST R6
     priority_str.parse::<i32>()
 //@ WITH
     vf_parse_i32(priority_str)
-//@ ENDSUBST
-//@ SUBST R8*
-    &redirect[
-//@ WITH
-    &redirect.as_str()[
-//@ ENDSUBST
-//@ SUBST R8
-    redirect.as_bytes()
-//@ WITH
-    redirect.as_str().as_bytes()
 //@ ENDSUBST
 //@ SUBST R6
     resource_and_priority.map(|(r, _)| r)
